@@ -533,6 +533,9 @@ def run(ck):
     # the radio is tuned to after every hop_channel() / `channel = x` (C18's paired-update rule R18.4, re-run here)
     from . import c18
     c18.channel_pairing(ck, agg, b)
+    # "a packet advertised by one FakeBLE object ... is queued": the receiver accepts only packets whose length byte and CRC position agree
+    # with their content - what the advertiser assembles must satisfy the length algebra and layout of C18 (R18.1 / R18.2, re-run here)
+    c18.length_algebra(ck, agg, ble.Ble(ck))
     agg.flush()
     ck.floor("R19.1", "available() paths", n1, 5)
     ck.floor("R19.1", "raise-capable site evaluations", sites, 8)
